@@ -639,6 +639,7 @@ class PathCtx:
             self.solver.add(c)
             self.model = mm
             return False
+        rec["uncond"] = True   # fails for every model of this path: the native replay must fail it too
         raise Abort("failed-check", obl)
 
     def fail(self, obl, key, desc=""):
@@ -667,6 +668,9 @@ class PathCtx:
             r, m = self._check(z3.Not(c))
             self.checks.append({"obl": "int80-exact", "key": None, "desc": "no 80-bit overflow on this path",
                                 "result": str(r), **({"model": self.model_inputs(m)} if r == z3.sat else {})})
+        else:
+            # every arithmetic result on this path was shown in range from the declared input ranges alone
+            self.checks.append({"obl": "int80-exact", "key": None, "desc": "", "result": "unsat", "trivial": True})
         r, m = (z3.sat, self.model) if self.model is not None else self._check()
         if r != z3.sat:
             return None, None
